@@ -4,7 +4,7 @@
    (_check_and_fire_on_done), Exec.complete (_complete), Macro.sync_send /
    async_send.  Tied to the code by K-macro on completion machines
    (harness/props/c10.py). *)
-From XSM Require Import Model.Macro Proofs.TreeP Proofs.DoneP.
+From XSM Require Import Model.Macro Proofs.TreeP Proofs.DoneP Proofs.GeomBridge Model.TreeLib Gen.GenGeom.
 
 (* done-ness is exactly: final; compound with a done active child; parallel with
    EVERY non-history region active and done (history children are not regions) *)
@@ -12,6 +12,17 @@ Theorem C10_is_done_spec : forall m C s,
   wf m = true -> s < size m -> (state_done m C s = true <-> IsDone m C s).
 Proof. exact is_done_spec. Qed.
 Print Assumptions C10_is_done_spec.
+
+(* TIE T: _is_state_done as RE-TRANSLATED from the current source on every run (Gen/GenGeom.v; recursion on explicit fuel,
+   the `for region in ...` loop with its early returns as a short-cutting fold) is the model's `is_done`, for every fuel -
+   so C10_is_done_spec is a statement about the function the engine runs *)
+Theorem C10_doneness_is_the_source : forall m C fuel s, GenGeom.is_state_done fuel m C s = is_done fuel m C s.
+Proof. exact is_state_done_bridge. Qed.
+Print Assumptions C10_doneness_is_the_source.
+Theorem C10_source_doneness_spec : forall m C s,
+  wf m = true -> s < size m -> (GenGeom.is_state_done (S (size m)) m C s = true <-> IsDone m C s).
+Proof. exact source_doneness_spec. Qed.
+Print Assumptions C10_source_doneness_spec.
 
 (* never while any region is not final ... *)
 Theorem C10_parallel_all : forall m C p r,
@@ -88,5 +99,7 @@ Example C10_ex :
   wf ex_m = true /\
   state_done ex_m [0; 1; 2; 3; 4; 6; 7; 8; 9; 10] 1 = false /\   (* s1 final, s2 not: p is NOT done *)
   state_done ex_m [0; 1; 2; 3; 4; 6; 7; 8; 9; 10] 4 = true /\
-  state_done ex_m [0; 1; 2; 3; 4; 6; 7; 8; 9; 10] 9 = true.
-Proof. vm_compute. auto. Qed.
+  state_done ex_m [0; 1; 2; 3; 4; 6; 7; 8; 9; 10] 9 = true /\
+  GenGeom.is_state_done 12 ex_m [0; 1; 2; 3; 4; 6; 7; 8; 9; 10] 1 = false /\
+  GenGeom.is_state_done 12 ex_m [0; 1; 2; 3; 4; 6; 7; 8; 9; 10] 4 = true.
+Proof. vm_compute. repeat split; reflexivity. Qed.
